@@ -16,6 +16,11 @@ func (ex *Exec) globalLoc(v *types.Var, st *State) *Loc {
 	ex.globals[v] = l
 	ex.escaped[l] = true
 	gi := ex.prog.GInit[v]
+	if gi != nil && strings.HasSuffix(ex.prog.Fset.Position(v.Pos()).Filename, overlayName) {
+		// ghost variable: one arbitrary value for the whole verification of a block
+		ex.base[l] = ex.symbolicValue(v.Name(), v.Type())
+		return l
+	}
 	if gi == nil {
 		// variable of a package outside the module (std / dependency)
 		ex.base[l] = ex.externalGlobal(v)
